@@ -102,6 +102,63 @@ func suiteMutate(tier string, seed uint64, model string) *Report {
 		reqs = append(reqs, fmt.Sprintf("%s\t%d\t%s\t%s\t%s", cmd, op, PathSexp(c.path), Show(d), Show(v)))
 		reqs = append(reqs, fmt.Sprintf("%sk\t%d\t%s\t%s\t%s", cmd, op, PathSexp(c.path), Show(d), Show(v)))
 	}
+	// directed grid: several matches under unions / wildcards / descents, nested arrays
+	ck := func(k string) Frag { return Frag{Kind: "c", Key: k} }
+	nn := func(i int) Frag { return Frag{Kind: "n", N: i} }
+	un := func(items ...any) Frag {
+		f := Frag{Kind: "u"}
+		for _, it := range items {
+			switch t := it.(type) {
+			case int:
+				f.Items = append(f.Items, UItem{Idx: t})
+			case string:
+				f.Items = append(f.Items, UItem{IsKey: true, Key: t})
+			}
+		}
+		return f
+	}
+	R, W, D := Frag{Kind: "R"}, Frag{Kind: "W"}, Frag{Kind: "D"}
+	dpaths := [][]Frag{{R, un(0, 2)}, {R, ck("a"), un(-1, 0)}, {R, un(0, 1), nn(0)}, {R, D, ck("a")}, {R, D, nn(0)},
+		{R, W, ck("a")}, {R, W, nn(0)}, {R, D, un("a", "b")}, {R, un("a", "b")}, {R, W, W}, {R, D, W}, {R, nn(-1), W},
+		{R, un(1, 0), un(0, 1)}, {R, ck("a"), W}, {R, W, un(0, -1)}}
+	obj := func(kv ...any) map[string]any {
+		m := map[string]any{}
+		for i := 0; i+1 < len(kv); i += 2 {
+			m[kv[i].(string)] = kv[i+1]
+		}
+		return m
+	}
+	ddata := []any{
+		[]any{[]any{obj("a", int64(1), "b", int64(2))}, obj("a", int64(3)), []any{[]any{obj("a", int64(4))}}},
+		obj("a", []any{int64(1), int64(2), int64(3)}, "b", []any{int64(4)}),
+		[]any{[]any{int64(1), int64(2)}, []any{int64(3), int64(4)}},
+		[]any{int64(1), int64(2), int64(3)},
+		obj("a", obj("a", int64(1), "b", int64(2)), "b", obj("a", int64(3))),
+		[]any{obj("a", int64(1)), obj("a", int64(2), "b", int64(5)), obj("b", int64(3))},
+	}
+	for _, dp := range dpaths {
+		for _, dd := range ddata {
+			for op := 0; op < 5; op++ {
+				last := dp[len(dp)-1].Kind
+				if (op == 0 || op == 1) && !(last == "c" || last == "n" || last == "W" || last == "u") {
+					continue
+				}
+				if op == 4 && pathHas(dp, "D") {
+					continue
+				}
+				for _, one := range []bool{false, true} {
+					c := cs{op: op, one: one, path: dp, data: dd, val: int64(99)}
+					cases = append(cases, c)
+					cmd := "mutate"
+					if one {
+						cmd = "mutate1"
+					}
+					reqs = append(reqs, fmt.Sprintf("%s\t%d\t%s\t%s\t%s", cmd, op, PathSexp(c.path), Show(dd), Show(c.val)))
+					reqs = append(reqs, fmt.Sprintf("%sk\t%d\t%s\t%s\t%s", cmd, op, PathSexp(c.path), Show(dd), Show(c.val)))
+				}
+			}
+		}
+	}
 	ans, err := RunModel(model, reqs)
 	if err != nil {
 		rep.Add(Disagreement{Kind: "harness-error", Detail: err.Error()})
@@ -254,6 +311,17 @@ func suiteMutate(tier string, seed uint64, model string) *Report {
 			rep.Add(Disagreement{Case: desc, Where: name + "/gen", Kind: "impl-vs-spec:mutate-panic", Impl: gerrs})
 		} else if gerrs == "" && !c.one && Show(gres) != body {
 			rep.Add(Disagreement{Case: desc, Where: name + "/gen", Kind: "impl-vs-spec:mutate", Impl: Show(gres), Spec: body, Class: classOf(Show(gres), false)})
+		} else if gerrs == "" && c.one && !(c.one && filterRoot) {
+			gg := Show(gres)
+			in := false
+			for _, cand := range splitResults(body) {
+				if cand == gg {
+					in = true
+				}
+			}
+			if !in {
+				rep.Add(Disagreement{Case: desc, Where: name + "/gen", Kind: "impl-vs-spec:mutate-one", Impl: gg, Spec: body, Class: classOf(gg, true)})
+			}
 		} else if gerrs != "" {
 			rep.Add(Disagreement{Case: desc, Where: name + "/gen", Kind: "impl-vs-spec:mutate-error", Impl: gerrs, Spec: body})
 		}
